@@ -360,8 +360,20 @@ void project(const case_t& c, const std::vector<rec_t>& recs, bool at_start, out
         {
             solve_miu  = rd.f();
             have_solve = true;
+            const auto size = rd.f();
+            rd.f(); // fx
+            rd.l(); // x
+            const auto alphas = rd.l();
             o << "solve";
             gB(o, true);
+            if (size == 2.0)
+            {
+                gL(o, alphas);
+            }
+            else
+            {
+                o << "L" << "?";
+            }
         }
         else if (r.tag == "csearch.iter")
         {
